@@ -52,7 +52,7 @@ def _seq_to_list(v):
 def _cvc5_text(smt2):
     # z3 prints (declare-fun x () T); fine for cvc5. Drop z3-only info lines.
     lines = [l for l in smt2.splitlines() if not l.startswith('(set-info')]
-    txt = '\n'.join(lines)
+    txt = '\n'.join(lines).replace('seq.nth_i', 'seq.nth').replace('seq.nth_u', 'seq.nth')
     if '(check-sat)' not in txt:
         txt += '\n(check-sat)\n'
     return '(set-logic ALL)\n' + txt
